@@ -286,6 +286,9 @@ class C17Executor(Executor):
             lo = self.ev(sl.lower, st)[0][1] if sl.lower is not None else None
             if sl.upper is None and isinstance(lo, VInt) and lo.const() is not None:
                 return [(st, VExt("Bytes", G.BCUT(base.t, z3.IntVal(lo.const()))))]
+            hi = self.ev(sl.upper, st)[0][1] if sl.upper is not None and sl.lower is None else None
+            if isinstance(hi, VInt) and hi.const() is not None and hi.const() >= 0:
+                return [(st, VExt("Bytes", G.BHEAD(base.t, z3.IntVal(hi.const()))))]      # round 7: x[:k], a function of x (never x itself)
             return [(st, VExt("Bytes"))]          # some other part of the bytes: not the document any more
         return super().get_slice(st, base, sl, node)
 
@@ -540,7 +543,19 @@ class C17Executor(Executor):
         super().__init__(*a, **kw)
         self.opaque_str = opaque_str        # only for the contract that asks for it (EXECUTOR_KW); other users are unaffected
 
+    def b_isinstance(self, st, args, kwargs, node):
+        # round 7: an abstract byte string is a `bytes` (the engine answers an unconstrained Bool for abstract values)
+        from pyvc.values import VType
+        v, t = args
+        if isinstance(v, VExt) and v.sort == "Bytes":
+            types = [x.name for x in (t.items if isinstance(t, VTuple) else [t]) if isinstance(x, VType)]
+            if len(types) == len(t.items if isinstance(t, VTuple) else [t]):
+                return [(st, VBool("bytes" in types))]
+        return super().b_isinstance(st, args, kwargs, node)
+
     def contains(self, st, container, item, node):
+        if isinstance(container, VExt) and container.sort == "Bytes":
+            return [(st, VBool(z3.Bool(fresh_name("bytes_contains"))))]   # round 7: substring test on abstract bytes: total, either answer
         if isinstance(container, VExt) and container.sort == "AttrDict":
             return [(st, VBool(z3.Bool(fresh_name("has_attr"))))]       # round 6: any attribute may or may not be present
         if self.opaque_str and isinstance(container, VStr) and isinstance(item, VStr) and container.const() is None:
@@ -548,6 +563,8 @@ class C17Executor(Executor):
         return super().contains(st, container, item, node)
 
     def str_method(self, st, s, name, args, kwargs, node):
+        if name == "encode" and "str.encode" in self.reg.ext_models:
+            return self.reg.ext_models["str.encode"](self, st, [s] + list(args), kwargs, node)
         if self.opaque_str and name == "startswith" and s.const() is None and len(args) == 1:
             cands = list(args[0].items) if isinstance(args[0], VTuple) else [args[0]]
             if cands and all(isinstance(x, VStr) for x in cands):
@@ -575,6 +592,9 @@ EXECUTOR_KW.update({t: dict(_G.GLUE_KW) for t in _G.TARGETS})
 # round 6: which strategy decides in _extract_from_mhtml -- helpers are NOT executed in place (their result is any value; the clause is
 # about the order of the strategies, and two inlined scans multiply to > 20000 paths); a low path limit keeps `unknown` cheap
 EXECUTOR_KW[f"{MHTML}::_extract_from_mhtml"] = dict(_G.GLUE_KW, inline_local=False, max_paths=3000)
+# round 7: the two helpers below it, verified over the abstract MIME view (callees by contract, never in place)
+EXECUTOR_KW[f"{MHTML}::_find_html_part"] = dict(_G.GLUE_KW, inline_local=False)
+EXECUTOR_KW[f"{MHTML}::_decode_content"] = dict(_G.GLUE_KW, inline_local=False)
 
 
 def m_lower(ex, st, args, kwargs, node):
